@@ -22,7 +22,7 @@ From Coq Require Import String ZArith List Bool Ascii.
 Import ListNotations.
 Open Scope Z_scope.
 
-Definition text := list ascii.
+Notation text := (list ascii) (only parsing).
 Definition lit (s : String.string) : text := String.list_ascii_of_string s.
 
 Definition code (c : ascii) : Z := Z.of_N (N_of_ascii c).
